@@ -357,6 +357,9 @@ def run(ctx):
         x = gen_data(rng, kind, N, cplx)
         if not np.any(x):
             continue
+        if it % 3 == 1:
+            x = x * 10.0 ** int(rng.integers(-9, 8))          # "any non-zero data": micro-volt to mega-unit amplitudes
+            ctx.count('search/aryule/rescaled')
         tag = ('complex' if cplx else 'real') + '/' + kind
         allow = bool(it % 2)
         ctx.count('search/aryule/%s' % tag)
